@@ -375,7 +375,10 @@ func (s *State) clone() *State {
 func (s *State) snapshot() *State {
 	n := &State{heaps: make(map[string]T, len(s.heaps)), ghost: make(map[string]T, len(s.ghost)),
 		globals: make(map[*ssa.Global]T, len(s.globals)), cells: make(map[*ssa.Alloc]T, len(s.cells)), next: s.next, ev: s.ev,
-		closures: s.closures, entryNext: s.entryNext}
+		closures: s.closures, entryNext: s.entryNext, vals: make(map[ssa.Value]Val, len(s.vals))}
+	for k, v := range s.vals {
+		n.vals[k] = v // SSA values are assigned once: lets entry()/old() resolve heap-allocated locals
+	}
 	for k, v := range s.heaps {
 		n.heaps[k] = v
 	}
